@@ -116,7 +116,11 @@ def showShape : Shape → String | .unit => "unit" | .tuple => "tuple" | .named 
 
 def itemJson (it : Item) : Json :=
   Json.mkObj [("trait", it.trait), ("preds", Json.arr (it.preds.toArray.map Json.str)),
-    ("digest", Json.str (toString (repr (it.head, it.variants.map fun (a, b, c, d) => (a, showShape b, c, d)))))]
+    ("digest", Json.str (toString (repr (it.head, it.variants.map fun (a, b, c, d) => (a, showShape b, c, d))))),
+    ("head", Json.arr (it.head.toArray.map Json.str)),
+    ("variants", Json.arr (it.variants.toArray.map fun (a, b, c, d) =>
+      Json.mkObj [("name", a), ("shape", showShape b), ("cfg", Json.arr (c.toArray.map Json.str)),
+                  ("fields", Json.arr (d.toArray.map fun f => Json.arr (f.toArray.map Json.str)))]))]
 
 /-- ["expand", id, record, features?] → ["expand", id, outcome, [items]] -/
 def handleExpand (a : Array Json) : Json :=
